@@ -1,6 +1,7 @@
 """Driver configuration for C09."""
 
 CFG = dict(
+    shrink_fields=['steps'],
     pkg="c09",
     tests=["TestC09"],
     n_quick=12, n_thorough=80, shards_thorough=4, timeout_quick=900, timeout_thorough=3000,
